@@ -198,6 +198,14 @@ func exec(t []string) string {
 			}
 		}
 		return bitsOf(f) + " " + sb.String()
+	case "ser": // ser <bits> <hf> <tw> <flags> <types>
+		f := mkFilter(t[1], t[2], t[3], t[5]).GetFilterLoadMsg()
+		f.Flags = uint8(atoi(t[4]))
+		buf := new(bytes.Buffer)
+		if err := f.Serialize(buf); err != nil {
+			return "err"
+		}
+		return hx.Hex(buf.Bytes())
 	case "load":
 		var fl msg.FilterLoad
 		if err := fl.Deserialize(bytes.NewReader(hx.UnHex(t[1]))); err != nil {
@@ -396,6 +404,11 @@ func bucket(t []string, out string) string {
 			return t[0] + "/empty-filter"
 		}
 		return t[0] + "/ok"
+	case "ser":
+		if out == "err" {
+			return "ser/err"
+		}
+		return "ser/ok"
 	case "load", "peer":
 		return t[0] + "/" + cls
 	case "tx":
@@ -715,6 +728,18 @@ func genLoad(g *hx.Gen) {
 			w = r.Bytes(r.Intn(30))
 		}
 		g.Emit("load %s", hx.Hex(w))
+	}
+	// the encoder: FilterLoad.Serialize (size checks, var-int widths 252/253, tx types)
+	for i := 0; i < g.N(400, 4000); i++ {
+		s := randFilter(r, false)
+		if r.Chance(10) {
+			s.bits = make([]byte, r.Pick(252, 253, 254, 36000, 36001))
+		}
+		var types []byte
+		for j := r.Pick(0, 0, 1, 5, 252, 253); j > 0; j-- {
+			types = append(types, byte(r.Intn(40)))
+		}
+		g.Emit("ser %s %d %s", s, r.Intn(256), hx.Hex(types))
 	}
 	// exactly at the size limit
 	for _, n := range []int{35999, 36000, 36001} {
